@@ -49,7 +49,16 @@ func probeModel(r *core.RNG) (*model.Schema, []*model.FieldDef) {
 			inputs = append(inputs, t.Name)
 		}
 	}
-	inputs = append(inputs, "Int", "Float", "String", "Boolean", "ID", "Tag")
+	// an enum whose internal Go values are partly unhashable (a slice, a map):
+	// legal for input use — names are looked up by name, not by value
+	base.Types = append(base.Types, &model.TypeDef{Kind: model.Enum, Name: "EU", Values: []*model.EnumVal{
+		{Name: "EU_PLAIN", Internal: "plain"},
+		{Name: "EU_SLICE", Internal: []interface{}{1, "x"}},
+		{Name: "EU_MAP", Internal: map[string]interface{}{"k": 1}},
+		{Name: "EU_INT", Internal: 7},
+	}})
+	base.Reindex()
+	inputs = append(inputs, "EU", "Int", "Float", "String", "Boolean", "ID", "Tag")
 	N, NN, L := model.Named, model.NonNull, model.ListOf
 	shapes := []func(t *model.TypeRef) *model.TypeRef{
 		func(t *model.TypeRef) *model.TypeRef { return t },
@@ -90,6 +99,15 @@ func probeModel(r *core.RNG) (*model.Schema, []*model.FieldDef) {
 			}
 		}
 	}
+	// the same probes on the subscription root: the Subscribe function is a
+	// resolver too and must see the same coerced argument map
+	sub := &model.TypeDef{Kind: model.Object, Name: "SubRoot"}
+	for _, f := range q.Fields {
+		cp := *f
+		sub.Fields = append(sub.Fields, &cp)
+	}
+	base.Types = append(base.Types, sub)
+	base.Subscription = "SubRoot"
 	base.Mutation = ""
 	base.Extra = nil
 	base.Reindex()
@@ -388,6 +406,7 @@ func runValue(c *core.Child, env *build.Env, m *model.Schema, f *model.FieldDef,
 		if ninv > 0 {
 			report("variable", textVar, "resolver-ran-with-invalid-variable", fmt.Sprintf("%d resolver invocations although variable $x is invalid", ninv))
 		}
+		subscribeRoute(c, env, f, tn, vars, nil, report)
 		return
 	case coerce.DontCare:
 		c.DontCare("lenient-scalar-coercion")
@@ -402,6 +421,7 @@ func runValue(c *core.Child, env *build.Env, m *model.Schema, f *model.FieldDef,
 	for _, mm := range harness.CompareInvocations(exp, rVar.Events, true) {
 		report("variable", textVar, "mismatch:"+mm.Class, mm.Msg)
 	}
+	subscribeRoute(c, env, f, tn, vars, gotArgs, report)
 	if !conformant {
 		return
 	}
@@ -467,6 +487,51 @@ func runValue(c *core.Child, env *build.Env, m *model.Schema, f *model.FieldDef,
 		}
 		if nontrivial {
 			c.Nontrivial(core.HashString(hashBase + "def"))
+		}
+	}
+}
+
+// subscribeRoute: the same variable through a subscription operation. The
+// Subscribe function must receive exactly the argument map the field
+// resolver of the query received (want != nil), or must not run at all when
+// the variable is invalid (want == nil).
+func subscribeRoute(c *core.Child, env *build.Env, f *model.FieldDef, tn string, vars map[string]interface{}, want map[string]interface{}, report func(route, text, sig, msg string)) {
+	text := fmt.Sprintf("subscription($x: %s) { %s(a: $x) }", tn, f.Name)
+	var run *harness.Run
+	if c.Guard("panic:Subscribe", text, func() { run, _ = harness.Subscribe(env, text, "", vars, nil, nil) }) {
+		return
+	}
+	c.Eval(1)
+	var subs, resolves []build.Event
+	for _, e := range run.Events {
+		switch e.Kind {
+		case "subscribe":
+			subs = append(subs, e)
+		case "resolve":
+			resolves = append(resolves, e)
+		}
+	}
+	if want == nil {
+		c.Feature("subscribe-route:invalid-variable")
+		if len(subs)+len(resolves) > 0 {
+			report("subscription", text, "resolver-ran-with-invalid-variable", fmt.Sprintf("%d Subscribe / %d resolver invocations although variable $x is invalid", len(subs), len(resolves)))
+		}
+		if run.Result == nil || len(run.Result.Errors) == 0 {
+			report("subscription", text, "accepted-invalid-variable", "subscription with an invalid variable produced no error")
+		}
+		return
+	}
+	c.Feature("subscribe-route:valid-variable")
+	if len(subs) != 1 {
+		report("subscription", text, "subscribe-invocations", fmt.Sprintf("%d Subscribe invocations, want 1", len(subs)))
+		return
+	}
+	if got := harness.CanonArgs(subs[0].Args); got != harness.CanonArgs(want) {
+		report("subscription", text, "metamorphic:subscribe-vs-query", fmt.Sprintf("the Subscribe function received %s, the query resolver received %s for the same variable", got, harness.CanonArgs(want)))
+	}
+	for _, e := range resolves {
+		if got := harness.CanonArgs(e.Args); got != harness.CanonArgs(want) {
+			report("subscription", text, "metamorphic:subscription-resolver-vs-query", fmt.Sprintf("the subscription field resolver received %s, the query resolver received %s", got, harness.CanonArgs(want)))
 		}
 	}
 }
